@@ -68,6 +68,8 @@ def held_wikicodes(code):
                                                                (attr == "_closing_tag" and (n.self_closing or n.wiki_markup or n.implicit))))
                 if type(n).__name__ == "ExternalLink" and attr == "_title" and not n.brackets:
                     unrendered = True
+                if isinstance(n, Tag) and holder is None and attr == "_closing_tag" and not str(w):
+                    unrendered = True       # an emptied closing name is no child of its tag (Tag.__children__)
                 out.append((n, attr, w, not unrendered))
     return out
 
